@@ -104,6 +104,22 @@ def lookup_path(fields, path):
     return v
 
 
+def dep_decoders(f, acc=None):
+    """names of the dependency decoders (opaque nodes / checked blobs) a format reaches"""
+    acc = [] if acc is None else acc
+    if isinstance(f, dict):
+        if f.get("k") == "opaque" and f.get("name") and f["name"] not in acc:
+            acc.append(f["name"])
+        if f.get("chk") and f["chk"] not in acc:
+            acc.append(f["chk"])
+        for v in f.values():
+            dep_decoders(v, acc)
+    elif isinstance(f, (list, tuple)):
+        for v in f:
+            dep_decoders(v, acc)
+    return acc
+
+
 def has_free_varbytes(f):
     """does the format contain a length-prefixed byte block whose content is free (not a checked dependency blob)?"""
     if isinstance(f, dict):
@@ -246,6 +262,8 @@ class Dec:
         if key not in self.oracle:
             raise NeedOracle(key, data)
         c, n = self.oracle[key]
+        if key in UNSAFE_BLOBS:
+            self.unsafe = True
         self.used.append((name, len(data), c, n))
         return c, n
 
@@ -370,12 +388,18 @@ class Dec:
         return ("panic", "unsupported:" + f.get("name", ""))
 
 
+# blobs on which a dependency decoder was killed (address-space limit) or timed out in the child process: inputs
+# that reach them are only ever decoded in a child process (the hostile run of C20), never in-process
+UNSAFE_BLOBS = set()
+
+
 def predict(f, bs, oracle):
-    """-> dict(cls 0/1/2, consumed, alloc, hot, used) ; raises NeedOracle"""
+    """-> dict(cls 0/1/2, consumed, alloc, hot, used, unsafe) ; raises NeedOracle"""
     d = Dec(bs, oracle)
+    d.unsafe = False
     r = d.run(f, 0, [], "")
     cls = {"ok": 0, "err": 1, "panic": 2}[r[0]]
-    return {"cls": cls, "consumed": r[2] if cls == 0 else 0, "alloc": d.alloc,
+    return {"unsafe": d.unsafe, "cls": cls, "consumed": r[2] if cls == 0 else 0, "alloc": d.alloc,
             "hot": r[1] if cls == 2 else d.hot[1], "used": d.used, "value": r[1] if cls == 0 else None}
 
 
@@ -397,10 +421,16 @@ def resolve_oracles(items, workdir, tag, oracle=None):
                 still.append(i)
         if not still:
             break
-        res, _ = vlib.run_harness("codec", [{"cfg": {}, "ops": [["odec", n, d.hex()] for n, d in queries]}], workdir,
-                                  tag=tag + "_odec%d" % rnd)
+        # in a child process with an address-space limit: a dependency decoder may ask for terabytes on a mutated
+        # blob (known findings of C20), which would be a fatal error of the harness process itself
+        res, _ = vlib.run_harness("codec_hostile", [{"cfg": {"aslimit_mb": 1024, "timeout_ms": 10000},
+                                                      "ops": [["odec", n, d.hex()] for n, d in queries]}], workdir,
+                                  tag=tag + "_odec%d" % rnd, timeout=1800)
         for key, o in zip(queries, res[0]):
-            oracle[key] = (o[0], o[1] if len(o) > 1 else 0)
+            # killed / timed out counts as a panic of the dependency decoder for the prediction (class 2)
+            oracle[key] = (min(o[0], 2), o[1] if len(o) > 1 and o[0] < 2 else 0)
+            if o[0] >= 3 or (len(o) > 2 and o[2] > (256 << 20)):
+                UNSAFE_BLOBS.add(key)
         pending = still
     for i in pending:
         if "pred" not in items[i]:
